@@ -98,6 +98,7 @@ type Run struct {
 	Reset       func() // restores package globals of the library under test
 	known       []KnownFinding
 	infraErr    []string
+	extViol     []string
 	replayPath  string
 }
 
@@ -169,6 +170,14 @@ func (r *Run) Sample(class string, v any) {
 
 // Assume records an assumption / trusted-base statement for the evidence file.
 func (r *Run) Assume(s string) { r.Assumptions = append(r.Assumptions, s) }
+
+// ExternalViolation records a violation found by an auxiliary tool run (e.g. the race detector), with its own replay artefact.
+func (r *Run) ExternalViolation(replayPath, text string) {
+	r.mu.Lock()
+	defer r.mu.Unlock()
+	r.extViol = append(r.extViol, replayPath)
+	fmt.Printf("  %s\n", text)
+}
 
 // Infra records an infrastructure error (no verdict; exit code 2).
 func (r *Run) Infra(format string, a ...any) {
@@ -492,7 +501,7 @@ func (r *Run) finish() int {
 	ev := map[string]any{
 		"property_id": r.ID, "tier": r.Tier, "seed": r.Seed, "level": "model_checking",
 		"coverage": cov, "assumptions": r.Assumptions, "wall_s": wall,
-		"violations": len(unknown), "violation_events": r.violTotal, "known_finding_hits": knownHit,
+		"violations": len(unknown) + len(r.extViol), "violation_events": r.violTotal, "known_finding_hits": knownHit,
 	}
 	if len(r.infraErr) > 0 {
 		ev["infrastructure_errors"] = r.infraErr
@@ -513,6 +522,12 @@ func (r *Run) finish() int {
 			fmt.Fprintln(os.Stderr, "INFRASTRUCTURE ERROR:", e)
 		}
 		return 2
+	}
+	for _, p := range r.extViol {
+		fmt.Printf("VIOLATION property=%s replay=%s\n", r.ID, p)
+	}
+	if len(unknown) == 0 && len(r.extViol) > 0 {
+		return 1
 	}
 	if len(unknown) == 0 {
 		if r.points.Load() == 0 || len(outc) < 2 {
